@@ -143,13 +143,20 @@ def earlier_user_call(ctx, lib, c):
     lib.fn("vf_g1_mul_128", None)(lib.O.ptr, lib.A.ptr, 1, lib.B.ptr)
     got = c05.b_proj(1, lib.O.read(lib.sizeof("G1")))
     expect(got == C.gen_mul(1, k % R), "earlier-user-call/g1_multiply_128", lambda: "[k]G for the 128-bit k=%x is wrong" % k)
+    k2 = (k * k * k * k + 7) & ((1 << 512) - 1)
+    G2 = C.gen_mul(2, 1)
+    lib.A.write_operand(c05.aff_b(lib, 2, G2, ((1, 2), (3, 4))))
+    lib.B.write_operand(conv.bi(k2, 512))
+    lib.fn("vf_g2_mul_512", None)(lib.O.ptr, lib.A.ptr, 1, lib.B.ptr)
+    got = c05.b_proj(2, lib.O.read(lib.sizeof("G2")))
+    expect(got == C.gen_mul(2, k2 % R), "earlier-user-call/g2_multiply_512", lambda: "[k]G2 for the 512-bit k=%x is wrong" % k2)
     ctx.event("earlier-user-call")
 
 
 def check(ctx, env, c):
     lib, lib2 = env
     op = c["op"]
-    if op in ("g1_random", "wk_g1", "lq_id", "g1_from_hash"):
+    if op in ("g1_random", "wk_g1", "lq_id", "g1_from_hash", "g2_random", "wk_g2", "g2_from_hash"):
         earlier_user_call(ctx, lib, c)
     if op in ("zp_from_hash", "scalar_hash_reduce"):
         v = c["v"]
